@@ -156,3 +156,14 @@ def status_of(m):
         return m.solver.get_model_status()
     except Exception:
         return None
+
+
+def objective_without_presolve(case, G=None):
+    """Trusted-base guard for OPTIMALITY verdicts: HiGHS presolve occasionally returns a sub-optimal point as kOptimal on the
+    pinned highspy (a 13-column kLeastAbsErrorsCycles model: 5 with presolve, 3 without). Before a check reports 'not optimal'
+    it re-runs the same call with the documented solver option presolve=off and judges that answer; the event is counted."""
+    kw = dict(case.get("kw", {}) or {})
+    so = dict(kw.get("solver_options") or {})
+    so["presolve"] = "off"
+    kw["solver_options"] = so
+    return _observe(dict(case, kw=kw), G)
